@@ -80,6 +80,9 @@ _avoid = Contract(
 )
 
 FAMILIES = [
+    Family('Val16', methods={'get_signatures': FnSpec('Value.get_signatures', ret=Seq(Obj('Sig16')), pure=True, assumed=True)}),
+    Family('Sig16', methods={'get_param_names': FnSpec('Signature.get_param_names', ret=Seq(Obj('NameW')), pure=True,
+                                                       assumed=True)}),
     Family('NameAPI', attrs={'module_path': Opt(PATH), 'line': Opt(INT), 'column': Opt(INT), 'name': STR}),
     Family('ModCtx16', attrs={'inference_state': Obj('InfState16')}),
     Family('InfState16', fields={'flow_analysis_enabled': BOOL, 'dynamic_params_depth': INT}),
@@ -87,7 +90,58 @@ FAMILIES = [
     Family('FuncVal16', attrs={'inference_state': Obj('InfState16'), 'tree_node': Obj('PNode')}),
 ]
 
-CONTRACTS = [_key, _sorted_defs, _flag, _predef, _avoid]
+# ------------------------------------------------------------------ goto on the keyword of a call
+def _region_kwarg_goto(func):
+    """AbstractTreeName.goto, branch for `f(name=...)`: from `param_names = []` to `return param_names`"""
+    for n in ast.walk(func):
+        if isinstance(n, ast.For) and ast.unparse(n.iter) == 'value_set' and ast.unparse(n.target) == 'value':
+            for body in ast.walk(func):
+                stmts = getattr(body, 'body', None)
+                if isinstance(stmts, list) and n in stmts:
+                    k = stmts.index(n)
+                    pre = stmts[k - 1:k] if k > 0 and isinstance(stmts[k - 1], ast.Assign) \
+                        and ast.unparse(stmts[k - 1].targets[0]) == 'param_names' else []
+                    return pre + stmts[k:k + 2]
+    return None
+
+
+def _replay_kwarg_goto(inp):
+    """goto on the keyword of a call whose callee is one of several functions that share the parameter name"""
+    from pyvc.replay import run_real
+    import jedi
+    code = ('def first(alpha, beta=1):\n    pass\ndef second(beta=2, gamma=3):\n    pass\n'
+            'def third(delta=0):\n    pass\n'
+            'func = first if cond() else (second if other() else third)\nfunc(beta=3)\n')
+    out = run_real(lambda: sorted((n.line, n.column) for n in jedi.Script(code).goto(8, 6)))
+    return {}, out
+
+
+_kwarg_goto = Contract(
+    id='C16.AbstractTreeName.goto.keyword', prop='C16',
+    clause='goto on the keyword of a call returns the matching parameter of EVERY signature of EVERY value the callee '
+           'may be - a set that does not depend on the (address-dependent) iteration order of the value set',
+    file='jedi/inference/names.py', qualname='AbstractTreeName.goto', region=_region_kwarg_goto,
+    params={'self': ANY},
+    free={'value_set': Seq(Obj('Val16')), 'name': Obj('PNode'), 'context': ANY, 'definition': ANY, 'par': ANY,
+          'node_type': STR, 'trailer': ANY, 'to_infer': ANY},
+    ghost={'gv': Obj('Val16'), 'gs': Obj('Sig16'), 'gp': Obj('NameW')},
+    families=['Val16', 'Sig16', 'NameW', 'PNode'], ret=Seq(Obj('NameW')), locals={'param_names': Seq(Obj('NameW'))},
+    requires=['name.is_leaf'],
+    invariants={
+        0: ['implies(gv in DONE and gs in gv.get_signatures() and gp in gs.get_param_names() and '
+            'gp.string_name == name.value, gp in param_names)'],
+        1: ['implies(gs in DONE and gp in gs.get_param_names() and gp.string_name == name.value, gp in param_names)',
+            'implies(gp in PRE_param_names, gp in param_names)'],
+        2: ['implies(gp in DONE and gp.string_name == name.value, gp in param_names)',
+            'implies(gp in PRE_param_names, gp in param_names)'],
+    },
+    ensures=['implies(gv in value_set and gs in gv.get_signatures() and gp in gs.get_param_names() and '
+             'gp.string_name == name.value, gp in result)'],
+    witness={}, replay=_replay_kwarg_goto, concrete_only=True, witness_library=[{}],
+    concrete_ensures=['result == [(1, 17), (3, 11)]'],
+)
+
+CONTRACTS = [_key, _sorted_defs, _flag, _predef, _avoid, _kwarg_goto]
 
 
 def dynamic_contracts(repo):
